@@ -74,7 +74,7 @@ func VH_c08_subscriptions() {
 	sm := w.L.SubscriptionManager().(*SubscriptionManager)
 	pairs := w.registryPairs()
 	counter := vhChooseRegistry("reg", pairs, verifrt.Param("maxEntries", 4), preset)
-	sm.subscriptionNum = counter
+	vhSetSubscriptionNum(sm, counter)
 	for _, p := range pairs {
 		if p.has {
 			sm.subscriptionEntries = append(sm.subscriptionEntries, &api.SubscriptionEntry{Id: p.id, ServerFeature: p.server, ClientFeature: p.client})
